@@ -1014,6 +1014,7 @@ func veRun(tmp string, sc veScenario) string {
 	}
 	sb.WriteString("\n")
 	if facts["finished"] != "true" || facts["bad_removes"] != "0" || facts["source_lost"] != "0" ||
+		facts["released_without_positive_answer"] != "0" || facts["confirmed_left_unrecorded"] != "0" || facts["ineligible_touched"] != "0" ||
 		(sc.stopKind != "now" && facts["delivered_ok"] != facts["eligible"]) {
 		// keep the interface events of a run that needs attention (comment lines)
 		for _, ev := range e.events {
